@@ -76,6 +76,40 @@ def c16(ctx, finish):
                 ctx.violations.append(("SelectorSubscriber deviates from Selector.tla on input %s after action %s: expected %s, got %s"
                                        % (res["mismatch"]["inp"], res["mismatch"]["after"], res["mismatch"]["expected"],
                                           res["mismatch"]["got"]), art))
+        # two notifiers of one subscriber object (SelectorConc.tla): notifications are serialised
+        if not ctx.violations and not ctx.errors:
+            cfg2 = ("CONSTANTS\n Vals = {1, 2, 3}\n Callers = {1, 2}\nINIT Init\nNEXT Next\nCHECK_DEADLOCK FALSE\n"
+                    "INVARIANT C16_Serial\nINVARIANT C16_ConcDedup\nINVARIANT C16_CacheIsLastDelivered\nINVARIANT EmitEnd\n")
+            r2, sc = run_small(d, "SelectorConc", cfg2)
+            ctx.states += r2.distinct
+            ctx.transitions += r2.generated
+            ctx.mc.append({"instance": "SelectorConc(Vals=3,Callers=2)", "distinct": r2.distinct, "generated": r2.generated,
+                           "invariants": ["C16_Serial", "C16_ConcDedup", "C16_CacheIsLastDelivered"],
+                           "result": "ok" if r2.ok else str(r2.violation)})
+            if not r2.ok:
+                if r2.violation and r2.violation[0] == "invariant":
+                    art = checkmain.save_artifact(ctx, "selconc_model", {"kind": "tlc-counterexample", "violated": r2.violation[1], "seq": True})
+                    ctx.violations.append(("%s violated in SelectorConc.tla" % r2.violation[1], art))
+                else:
+                    ctx.errors.append("TLC on SelectorConc: %s\n%s" % (r2.violation, r2.out[-1500:]))
+                return finish(ctx)
+            uniq = {json.dumps(x, sort_keys=True): x for x in sc}
+            sc = [uniq[k] for k in sorted(uniq)]
+            res, path = seqlib("selconc", {"seqs": sc}, d)
+            if res.get("error"):
+                ctx.errors.append(res["error"])
+            else:
+                ctx.replayed += res["checked"]
+                ctx.gens.append({"instance": "SelectorConc", "sequences": len(sc), "replayed": res["checked"],
+                                 "second_notifier_seen_waiting": res.get("waited", 0), "exhaustive": True})
+                if res.get("mismatch"):
+                    mm = res["mismatch"]
+                    art = checkmain.save_artifact(ctx, "selconc", {"kind": "selector sequence", "seq": "selconc",
+                                                                   "seqs": [x for x in sc if x["prior"] == mm["prior"] and x["order"] == mm["order"]],
+                                                                   "mismatch": mm})
+                    ctx.violations.append(("SelectorSubscriber with two concurrent notifiers deviates from SelectorConc.tla "
+                                           "(cache %s, notifications %s): %s: expected callbacks %s, got %s"
+                                           % (mm["prior"], mm["order"], mm["what"], mm["expected"], mm["got"]), art))
     finally:
         shutil.rmtree(d, ignore_errors=True)
     # the same through a running store
@@ -326,6 +360,8 @@ def c19(ctx, finish):
                     art = checkmain.save_artifact(ctx, "two_%d_%s" % (vi, key),
                                                   {"kind": "two-store run: the events of one store are not a behaviour of a store",
                                                    "store": key, "event": v.get("event"), "configs": doc["configs"],
+                                                   "recorded": checkmain.recorded_run(proj, v.get("run")),
+                                                   "recorded_both_stores": checkmain.recorded_run(tr, v.get("run")),
                                                    "runs": [doc["runs"][v["run"]]] if isinstance(v.get("run"), int) else []})
                     ctx.violations.append(("in a process with two stores, the events of store %s cannot be explained by the "
                                            "specification of one store alone, at %s" % (key, json.dumps(v.get("event"))[:250]), art))
@@ -357,6 +393,10 @@ def replay(a):
     try:
         if a.get("seq") == "selector":
             res, p = seqlib("selector", {"seqs": a["seqs"]}, d)
+            print(json.dumps(res))
+            return 0 if not res.get("mismatch") and not res.get("error") else 1
+        if a.get("seq") == "selconc":
+            res, p = seqlib("selconc", {"seqs": a["seqs"]}, d)
             print(json.dumps(res))
             return 0 if not res.get("mismatch") and not res.get("error") else 1
         if a.get("seq") == "builder":
